@@ -18,7 +18,9 @@ import (
 )
 
 type c01Case struct {
-	Files map[string]string `json:"files"`
+	Files   map[string]string `json:"files"`
+	Special map[string]string `json:"special,omitempty"` // path -> fifo | dir | symlink:<target>
+	NoRepo  bool              `json:"no_repo,omitempty"` // the files are outside any repository (no .git)
 	Mode  string            `json:"mode"` // lib-file | lib-files | lib-content | cli
 	Tool  bool              `json:"tool"` // external tools enabled (fake tool)
 	Desc  string            `json:"desc"`
@@ -660,6 +662,17 @@ var c01StringPositions = []string{"branches", "tags", "paths", "branches-ignore"
 
 var c01StringAlphabet = []string{"a", "z", "A", "0", "9", "*", "**", "?", "+", "[", "]", "[a-z]", "[z-a]", "[]", "[!", "-", "!", "\\", "/", ".", "..", " ", "~", "^", ":", "@", "@{", "\n", "\r", "\t", "\x00", "\x7f", "é", "日本", "\xff", "'", "\"", "$", "${{", "}}", "{", "}", "#", "%", "&", "|", ",", ";", "=", "<", ">", "(", ")", "`", "_", "--", "//", "./", "../", "docker://", "@v1", "@", "*/5", "0 0 * * *", "@daily", "@every 1s", "60", "-1", "1-", "1/0", "JAN", "?", "L", "bash", "pwsh {0}", "python", "{0}", "ubuntu-latest", "self-hosted", "windows-", "read", "write", "none", "read-all", "contents"}
 
+// c01PositionStrings are hostile values that are specific to one position (formats that take a
+// different code path than arbitrary text).
+var c01PositionStrings = map[string][]string{
+	"uses":   {"./foo.yml@v1", "./@", "./a@", "./.github/workflows/reusable.yml@main", "./act@v1", "docker://", "docker://:", "docker://a:b:c", "owner/repo@", "owner/repo/path@", "@", "a/b", "./", ".", "./..", "./act/", "./act/../act", "././act", "./.github/workflows/../workflows/reusable.yml", "owner/repo/.github/workflows/w.yml@v1", "owner/repo/.github/workflows/w.yml@", "./.github/workflows/reusable.yml/"},
+	"image":  {"docker://", "a:b:c", ":", "@sha256:", "${{"},
+	"cron":   {"0 0 30 2 *", "0 0 31 4 *", "* * * * * *", "@yearly", "*/0 * * * *", "60 * * * *", "0-59/1000 * * * *", "TZ=UTC * * * * *", "CRON_TZ=x * * * * *"},
+	"shell":  {"bash {0}", "{0}", "python {0}", "bash -e {0} {1}", "pwsh -command \". '{0}'\""},
+	"needs":  {"j1", "J1", ""},
+	"job-id": {"__proto__", "constructor", "toString"},
+}
+
 func c01HostileString(r *Rand) string {
 	if r.Chance(1, 25) {
 		return strings.Repeat(r.Pick(c01StringAlphabet), []int{100, 3000, 16000}[r.Intn(3)])
@@ -745,6 +758,9 @@ func c01StringFamily(n int) *c01Family {
 	return &c01Family{Name: "hostile-strings", N: n, Gen: func(r *Rand, idx int) c01Case {
 		s := c01HostileString(r)
 		pos := c01StringPositions[idx%len(c01StringPositions)]
+		if ps := c01PositionStrings[pos]; len(ps) > 0 && r.Chance(1, 3) {
+			s = r.Pick(ps)
+		}
 		files := c01StringFiles(pos, s)
 		for k, v := range files {
 			if len(v) > c01MaxFile { // keep inside the size bound: shorten the hostile string
@@ -816,6 +832,48 @@ func c01ToolFamily(n int) *c01Family {
 	}}
 }
 
+// ---------------------------------------------------------------------------
+// references from a workflow to special files: devices that never reach EOF, named pipes,
+// directories, symlink loops. The worker of this family runs under an address-space limit.
+
+var c01SpecialSpecs = []struct {
+	name    string
+	spec    string            // value of uses:
+	special map[string]string // filesystem objects to create
+	action  bool              // step action (true) or reusable workflow call (false)
+}{
+	{"wf-dev-zero-traversal", "./../../../../../../../../../../../../dev/zero", nil, false},
+	{"wf-dev-urandom-traversal", "./../../../../../../../../../../../../dev/urandom", nil, false},
+	{"wf-dev-null-traversal", "./../../../../../../../../../../../../dev/null", nil, false},
+	{"wf-dev-full-traversal", "./../../../../../../../../../../../../dev/full", nil, false},
+	{"wf-symlink-to-dev-zero", "./.github/workflows/dev.yml", map[string]string{".github/workflows/dev.yml": "symlink:/dev/zero"}, false},
+	{"wf-fifo", "./.github/workflows/fifo.yml", map[string]string{".github/workflows/fifo.yml": "fifo"}, false},
+	{"wf-directory", "./.github/workflows", nil, false},
+	{"wf-root-directory", "./", nil, false},
+	{"wf-symlink-loop", "./.github/workflows/loop.yml", map[string]string{".github/workflows/loop.yml": "symlink:loop.yml"}, false},
+	{"wf-dangling-symlink", "./.github/workflows/dangling.yml", map[string]string{".github/workflows/dangling.yml": "symlink:/nonexistent/x"}, false},
+	{"action-metadata-symlink-to-dev-zero", "./actz", map[string]string{"actz/action.yml": "symlink:/dev/zero"}, true},
+	{"action-metadata-fifo", "./actf", map[string]string{"actf/action.yml": "fifo"}, true},
+	{"action-metadata-is-directory", "./actd", map[string]string{"actd/action.yml": "dir"}, true},
+	{"action-metadata-symlink-loop", "./actl", map[string]string{"actl/action.yml": "symlink:action.yml"}, true},
+	{"action-dir-is-dev", "./../../../../../../../../../../../../dev", nil, true},
+	{"action-dir-is-proc-self-fd", "./../../../../../../../../../../../../proc/self/fd", nil, true},
+}
+
+func c01SpecialFamily() *c01Family {
+	modes := []string{"lib-file", "lib-files", "cli"}
+	return &c01Family{Name: "special-paths", N: len(c01SpecialSpecs) * len(modes), Gen: func(r *Rand, idx int) c01Case {
+		sp := c01SpecialSpecs[idx/len(modes)]
+		c := c01Case{Files: c01BaseFiles(), Mode: modes[idx%len(modes)], Special: sp.special, Desc: "uses: " + sp.spec + " (" + sp.name + ")"}
+		if sp.action {
+			c.Files[c01PathWorkflow] = "on: push\njobs:\n  j:\n    runs-on: ubuntu-latest\n    steps:\n      - id: a\n        uses: " + sp.spec + "\n        with:\n          name: x\n      - run: echo ${{ steps.a.outputs.result }}\n"
+		} else {
+			c.Files[c01PathWorkflow] = "on: push\njobs:\n  c:\n    uses: " + sp.spec + "\n    with:\n      name: x\n  after:\n    needs: [c]\n    runs-on: ubuntu-latest\n    steps:\n      - run: echo ${{ needs.c.outputs.out1 }}\n"
+		}
+		return c
+	}}
+}
+
 func c01Families(tier string) []*c01Family {
 	th := tier == "thorough"
 	q := func(a, b int) int {
@@ -836,5 +894,6 @@ func c01Families(tier string) []*c01Family {
 		c01ExprFamily(q(24000, 2000000)),
 		c01StringFamily(q(9600, 500000)),
 		c01ToolFamily(q(96, 960)),
+		c01SpecialFamily(),
 	}
 }
